@@ -79,8 +79,11 @@ type Scenario struct {
 	MaxMs       int          `json:"maxMs"`
 	Tag         string       `json:"tag"`
 	// content mutation for C13: name of the mutation and the request index it applies to
-	Mut    string `json:"mut"`
-	MutReq int    `json:"mutReq"`
+	Mut     string `json:"mut"`
+	MutReq  int    `json:"mutReq"`  // unused (kept for old replays)
+	MutS    int    `json:"mutS"`    // stream of the mutated response (-1: the multivariant playlist)
+	MutKind string `json:"mutKind"` // multi | pl | init | seg | part
+	MutNth  int    `json:"mutNth"`  // 0-based occurrence of (stream, kind)
 }
 
 // PPS is the number of parts per segment of Low-Latency streams; part p (1-based, global) holds unit p of every track.
@@ -309,6 +312,7 @@ type runner struct {
 	waitGot atomic.Int64
 	cbAfter atomic.Int64
 	events  []trace.M
+	seen    map[string]int
 	tstream []int // global track index -> stream index (all synthesised tracks are supported ones)
 }
 
@@ -438,9 +442,14 @@ func (r *runner) handle(i int, req *http.Request) (Resp, string, map[string]inte
 	default:
 		resp.Status = 404
 	}
-	if r.sc.Mut != "" && i == r.sc.MutReq && fault == "" {
-		resp.Body = mutate(r.sc.Mut, kind, resp.Body, r)
-		info["mut"] = r.sc.Mut
+	if r.sc.Mut != "" && fault == "" && kind == r.sc.MutKind && info["s"] == r.sc.MutS {
+		key := fmt.Sprintf("%d/%s", r.sc.MutS, kind)
+		if r.seen[key] == r.sc.MutNth {
+			id, _ := info["id"].(int)
+			resp.Body = r.mutate(r.sc.Mut, kind, resp.Body, r.sc.MutS, id)
+			info["mut"] = r.sc.Mut
+		}
+		r.seen[key]++
 	}
 	info["q"] = req.URL.RawQuery
 	info["range"] = req.Header.Get("Range")
@@ -540,7 +549,7 @@ func workingGoroutines() int {
 
 // Run executes one scenario and appends its trace.
 func Run(w *trace.W, idx int, sc Scenario) error {
-	r := &runner{sc: sc, w: w, faults: map[int]string{}}
+	r := &runner{sc: sc, w: w, faults: map[int]string{}, seen: map[string]int{}}
 	for _, f := range sc.Faults {
 		r.faults[f.Req] = f.Kind
 	}
@@ -686,11 +695,27 @@ func Run(w *trace.W, idx int, sc Scenario) error {
 	ended.Store(true)
 	if got == 0 {
 		// no value within the budget: Close and wait again (a client that ignores Close is a violation)
+		if os.Getenv("VERIF_DEBUG") != "" {
+			buf := make([]byte, 1<<20)
+			n := runtime.Stack(buf, true)
+			os.Stderr.Write(buf[:n])
+		}
+		// a client that is sleeping in the real-time pacing of a sample (at most clientMaxDTSRTCDiff = 10 s) is not wedged
+		pacing := 0
+		{
+			buf := make([]byte, 1<<20)
+			n := runtime.Stack(buf, true)
+			for _, blk := range bytes.Split(buf[:n], []byte("\n\n")) {
+				if bytes.Contains(blk, []byte("[select")) && bytes.Contains(blk, []byte("(*clientTrack).handleData")) {
+					pacing = 1
+				}
+			}
+		}
 		doClose()
 		select {
 		case waitErr = <-client.Wait():
 			got = 1
-			r.emit(trace.M{"ev": "forcedclose"})
+			r.emit(trace.M{"ev": "forcedclose", "pacing": pacing})
 		case <-time.After(3 * time.Second):
 		}
 	}
@@ -755,8 +780,4 @@ func RunAll(path, out, marker string) (int, error) {
 		w.Flush()
 	}
 	return len(scs), w.Close()
-}
-
-func mutate(name, kind string, body []byte, r *runner) []byte {
-	return body
 }
